@@ -8,7 +8,7 @@ EXTENDS Bootstrap, Json, IOUtils, TLC, Sequences
 
 Trace == ndJsonDeserialize(IOEnv.TRACE)
 VARIABLE l
-tvars == <<installed, src, selfok, agree, differ, l>>
+tvars == <<installed, src, selfok, agree, differ, redo, l>>
 
 TInit == BInit /\ l = 1
 IsEvent(name) == l <= Len(Trace) /\ Trace[l].ev = name /\ l' = l + 1
@@ -19,11 +19,14 @@ TSelfParse == IsEvent("selfparse") /\ SelfParse(E.gen, E.ok)
 TInstall   == IsEvent("install") /\ Install(E.gen)
 TCompare   == IsEvent("compare") /\ Compare(E.d, E.same)
 
-TNext == TGenerate \/ TSelfParse \/ TInstall \/ TCompare
+TRegenerate == IsEvent("regenerate") /\ E.from = installed /\ Regenerate(E.sha)
+
+TNext == TGenerate \/ TSelfParse \/ TInstall \/ TCompare \/ TRegenerate
 
 InvFixedPoint == FixedPoint
 InvSelfHosting == SelfHosting
 InvSameLanguage == SameLanguage
+InvDeterministic == Deterministic
 
 TraceAccepted ==
     LET n == TLCGet("stats").diameter - 1 IN
